@@ -102,8 +102,9 @@ CANDIDATES = {
     "unclosedelements": [True, False],
     "org": ["ORG", "O%G"],
     "user": ["alice", "bob"],
-    "checking": [["123"], ["1", "22"], ["A-1", "B-2", "C-3"], ["12 3456 789"]],
-    "creditcard": [["4111"], ["1", "2"]],
+    "checking": [["123"], ["1", "22"], ["A-1", "B-2", "C-3"], ["12 3456 789"], ["1000001", "1000002", "1000003", "1000004", "1000005", "1000006", "1000007"],
+                 ["%d" % (10000000 + i) for i in range(24)]],
+    "creditcard": [["4111"], ["1", "2"], ["4111-%04d" % i for i in range(9)]],
     "useragent": ["UA/1"],
     "clientuid": ["CUID-1"],
 }
